@@ -109,6 +109,39 @@ def t11():
                              "if COND: return False' then 'return True'")
     c = boolexp(b[0].body[0].test, {"state.host_has_access(host_addr,AccessLevel.ROOT)": "root"})
     out += f"Definition tr_goal_host (root : bool) : bool := negb {c}.\n"
+    # the accessors the atoms stand for: State.host_* read one field of the host's row; has_access compares
+    # levels; the host-level rule is "service not in the deny list recorded for that source"
+    acc = {"host_reachable": "reachable", "host_compromised": "compromised", "host_discovered": "discovered"}
+    for fn, field in acc.items():
+        f = get_function(f"{REPO}/nasim/envs/state.py", "State", fn)
+        b = body_of(f)
+        if len(b) != 1 or norm(src(b[0])) != f"returnself.get_host(host_addr).{field}":
+            raise Untranslatable(f"State.{fn}: expected 'return self.get_host(host_addr).{field}'")
+    f = get_function(f"{REPO}/nasim/envs/state.py", "State", "host_has_access")
+    b = body_of(f)
+    if not (len(b) == 1 and isinstance(b[0], ast.Return) and isinstance(b[0].value, ast.Compare)
+            and len(b[0].value.ops) == 1 and norm(src(b[0].value.left)) == "self.get_host(host_addr).access"
+            and norm(src(b[0].value.comparators[0])) == "access_level"):
+        raise Untranslatable("State.host_has_access: expected a comparison of the row's access with access_level")
+    op = type(b[0].value.ops[0])
+    cmp_ = {ast.GtE: "Nat.leb lvl acc", ast.Gt: "Nat.ltb lvl acc", ast.Eq: "Nat.eqb acc lvl",
+            ast.LtE: "Nat.leb acc lvl", ast.Lt: "Nat.ltb acc lvl"}.get(op)
+    if cmp_ is None:
+        raise Untranslatable("State.host_has_access: comparison operator outside the fragment")
+    out += f"Definition tr_has_access (acc lvl : nat) : bool := {cmp_}.\n"
+    f = get_function(PATH, "Network", "host_traffic_permitted")
+    if [norm(src(s)) for s in body_of(f)] != ["dest_host=self.hosts[dest_addr]",
+                                              "returndest_host.traffic_permitted(src_addr,service)"]:
+        raise Untranslatable("Network.host_traffic_permitted: expected delegation to the destination Host")
+    f = get_function(f"{REPO}/nasim/scenarios/host.py", "Host", "traffic_permitted")
+    b = body_of(f)
+    if not (len(b) == 1 and isinstance(b[0], ast.Return) and isinstance(b[0].value, ast.Compare)
+            and len(b[0].value.ops) == 1 and isinstance(b[0].value.ops[0], (ast.In, ast.NotIn))
+            and norm(src(b[0].value.left)) == "service"
+            and norm(src(b[0].value.comparators[0])) == "self.firewall.get(addr,[])"):
+        raise Untranslatable("Host.traffic_permitted: expected 'service [not] in self.firewall.get(addr, [])'")
+    out += ("Definition tr_host_permits (in_deny_list : bool) : bool := "
+            + ("negb in_deny_list" if isinstance(b[0].value.ops[0], ast.NotIn) else "in_deny_list") + ".\n")
     return out
 
 
